@@ -856,7 +856,7 @@ pub fn run(tier: Tier, shard: Shard, rep: &mut Report) {
     ];
     rep.max_samples = 3;
     let cfgs = configs(tier);
-    let wall = if tier == Tier::Quick { 45.0 } else { 1800.0 };
+    let wall = if tier == Tier::Quick { 150.0 } else { 1800.0 };
     let per = wall / cfgs.len() as f64;
     for (cfg, depth) in cfgs {
         bfs(&cfg, depth, shard, rep, per);
